@@ -43,11 +43,14 @@ type wcall struct {
 	payload string
 	failed  bool
 	// evaluated when the call ENTERED the writer
-	overlap       string    // kind of the call that was still inside the writer
-	afterAPI      string    // a removing call visible to the caller had already returned
-	afterClosed   bool      // the completed channel was already closed
-	afterTerminal string    // Complete / Error had already been written
-	byStart       *startRec // Complete / Error: the upstream whose updater call wrote it
+	overlap       string // kind of the call that was still inside the writer
+	afterAPI      string // a removing call visible to the caller had already returned
+	afterClosed   bool   // the completed channel was already closed
+	afterTerminal string // Complete / Error had already been written
+	// evaluated when the call LEFT the writer
+	exitAfterAPI    string    // a removing call returned while this call was inside the writer
+	exitAfterClosed bool      // the completed channel was closed while this call was inside the writer
+	byStart         *startRec // Complete / Error: the upstream whose updater call wrote it
 }
 
 type cause struct {
@@ -684,10 +687,22 @@ func (w *writer) enter(kind string) *wcall {
 	return c
 }
 
+// leave records the EXIT of a writer call. A call that entered in time but is
+// still inside the writer when the removing call has returned / the completed
+// channel has been closed keeps writing after the owner of the writer was told
+// it is free: judged like a call that entered late.
 func (w *writer) leave(c *wcall) {
-	w.in.mu.Lock()
-	c.ret = w.in.tickL()
-	w.in.mu.Unlock()
+	in := w.in
+	in.mu.Lock()
+	c.ret = in.tickL()
+	s := w.sub
+	if c.afterAPI == "" && s.apiRet != 0 {
+		c.exitAfterAPI = s.apiKind
+	}
+	if !c.afterClosed && s.completed != nil && isClosed(s.completed) {
+		c.exitAfterClosed = true
+	}
+	in.mu.Unlock()
 }
 
 func (w *writer) Write(p []byte) (int, error) {
@@ -700,7 +715,12 @@ func (w *writer) Write(p []byte) (int, error) {
 	}
 	in.mu.Unlock()
 	if last == nil {
+		// the first Write of a message stays inside the writer for a schedule point
+		// (a slow client); the following Writes of the same message are atomic
 		last = w.enter("Write")
+		w.busy = "Write"
+		w.in.point(w.sub.spec.Name + ":Write")
+		w.busy = ""
 		w.leave(last)
 	} else if w.busy != "" && last.overlap == "" {
 		last.overlap = w.busy
